@@ -25,13 +25,14 @@
 #define MAXDEPTH 12
 enum { OP_ALLOC, OP_LINK, OP_CLEAR, OP_GC };
 /* shapes: bytes of 1,2,3,4,64 chunks, pair, vector(2) 1 chunk, vector(6) 2 chunks, bytes larger than the heap */
-enum { SH_B1, SH_B2, SH_B3, SH_B4, SH_B64, SH_PAIR, SH_V2, SH_V6, SH_HUGE, NSHAPES };
+enum { SH_B1, SH_B2, SH_B3, SH_B4, SH_B64, SH_PAIR, SH_V2, SH_V6, SH_HUGE, SH_HUGE3, NSHAPES };
+static int alloc_failed = 0;   /* set when an allocation returned an exception: the heap has no size limit, so none may */
 
 typedef struct { unsigned char kind, a, b; } op_t;
 static op_t alphabet[128];
 static int nops = 0;
 
-static size_t heap_bytes = 48 * 1024;
+static size_t heap_bytes = 64 * 1024;   /* SEXP_MINIMUM_HEAP_SIZE on 64-bit: smaller values select the 2 MB default */
 static sexp roots;      /* vector of NSLOTS, preserved */
 static long violations = 0;
 
@@ -73,6 +74,7 @@ static sexp alloc_shape(sexp ctx, int sh) {
   case SH_V2: return sexp_make_vector(ctx, sexp_make_fixnum(2), SEXP_FALSE);
   case SH_V6: return sexp_make_vector(ctx, sexp_make_fixnum(6), SEXP_FALSE);
   case SH_HUGE: return sexp_make_bytes(ctx, sexp_make_fixnum(heap_bytes + 4096), SEXP_VOID);
+  case SH_HUGE3: return sexp_make_bytes(ctx, sexp_make_fixnum(5 * heap_bytes + 4096), SEXP_VOID);   /* more than twice any segment so far */
   }
   return SEXP_FALSE;
 }
@@ -83,7 +85,7 @@ static void apply_op(sexp ctx, op_t o) {
   case OP_ALLOC:
     sexp_vector_set(roots, sexp_make_fixnum(o.a), SEXP_FALSE);
     x = alloc_shape(ctx, o.b);
-    if (sexp_exceptionp(x)) x = SEXP_FALSE;      /* out of memory: nothing allocated */
+    if (sexp_exceptionp(x)) { x = SEXP_FALSE; alloc_failed = o.b + 1; }      /* out of memory: nothing allocated */
     sexp_vector_set(roots, sexp_make_fixnum(o.a), x);
     break;
   case OP_LINK:
@@ -233,8 +235,13 @@ static sexp replay(const unsigned char *h, int n, int check_from) {
   char msg[700];
   for (i = 0; i < n; i++) {
     long fails_before = vh_heapcheck_fail;
+    alloc_failed = 0;
     apply_op(ctx, alphabet[h[i]]);
     if (i < check_from) continue;
+    if (alloc_failed) {
+      snprintf(msg, sizeof(msg), "allocation of shape %d failed although the heap may grow without limit (max size 0)", alloc_failed - 1);
+      violation(h, i + 1, msg);
+    }
     if (vh_heapcheck_fail != fails_before) {
       snprintf(msg, sizeof(msg), "heap malformed after a collection: %s", vh_heapcheck_msg);
       violation(h, i + 1, msg);
